@@ -201,5 +201,4 @@ package octosql
 
 // TypeSum(t, NULL) admits NULL (the part of the upper-bound law that typing of strict functions relies on, C08).
 //@ func TypeSum
-//@   requires validT(t1) && validT(t2)
-//@   ensures nullsum: t2.TypeID == 0 ==> t2.Is(t2) == 2 && t2.Is(result) == 2
+//@   ensures nullsum: validT(t1) && validT(t2) && t2.TypeID == 0 ==> t2.Is(t2) == 2 && t2.Is(result) == 2
